@@ -137,3 +137,24 @@ fn c10_divsteps_count_covers_both_operands() {
     kani::cover!(gb > fb && fb > 62);
     kani::cover!(fb > gb && gb == 0);
 }
+
+//@ prop=C10 tier=thorough profile=k64 funcs="safegcd::divsteps (slice: the statements between `let mut i = 0;` and the `while i < m` loop),safegcd::iterations,UnsatInt::bits" bound="UnsatInt<6> (the work width of a 256-bit operand): every pair of non-negative well-formed f_0, g: loop bound >= the Bernstein-Yang count for max(bits(f_0), bits(g)); the divstep loop body itself is not decided" free_bits=744 assumes="cut point: f_0, g well-formed (limbs < 2^62) and non-negative"
+#[kani::proof]
+#[kani::unwind(8)]
+fn c10_divsteps_count_covers_both_operands_6() {
+    let f = UnsatInt::<6>(kani::any());
+    let g = UnsatInt::<6>(kani::any());
+    let mut i = 0;
+    while i < 6 {
+        kani::assume(f.0[i] <= M && g.0[i] <= M);
+        i += 1;
+    }
+    kani::assume(f.0[5] >> 61 == 0 && g.0[5] >> 61 == 0);
+    let m = super::__verif_divsteps_count(f, g) as u64;
+    let (fb, gb) = (f.bits(), g.bits());
+    let d = if fb > gb { fb } else { gb } as u64;
+    let num = 49 * d + if d < 46 { 80 } else { 57 };
+    assert!(17 * (m + 1) > num);
+    kani::cover!(gb > fb && fb > 256);
+    kani::cover!(d < 46);
+}
